@@ -100,6 +100,9 @@ var c17VerPool = []string{"NC_001422.1", "X", "AB123456.2", "", "v>1", "two word
 var c17DefPool = []string{
 	"Coliphage phi-X174, complete genome.", "", "d", "has > inside", "tab\there", " two  spaces ",
 	strings.Repeat("a very long definition ", 6) + "end.",
+	// GenBank definitions are wrapped over several lines in real files; the
+	// FASTA description is one line, line breaks written as blanks.
+	"wrapped over\ntwo lines", "wrapped over\nthree lines\nof a definition", "four\nlines\nof\ntext.",
 }
 
 var c17OtherLens = []int{0, 1, 69, 70, 71, 139, 140, 141, 210, 7, 35, 299}
@@ -155,15 +158,18 @@ func (r *c17rec) residues() []byte {
 	return c17gen(r.gmode, r.gparam, r.n)
 }
 
+// c17Flat is the one-line form of a (possibly wrapped) GenBank definition.
+func c17Flat(s string) string { return strings.ReplaceAll(s, "\n", " ") }
+
 // wantDesc is the description the written record must carry.
 func (r *c17rec) wantDesc() string {
 	switch r.kind {
 	case "genbank":
-		return r.ver + " " + r.def
+		return r.ver + " " + c17Flat(r.def)
 	case "genbank-region":
-		return r.ver + model.FastaSuffix(r.head, r.head+r.n) + " " + r.def
+		return r.ver + model.FastaSuffix(r.head, r.head+r.n) + " " + c17Flat(r.def)
 	case "genbank-slice":
-		return r.ver + model.FastaSuffix(r.pre, r.pre+r.n) + " " + r.def
+		return r.ver + model.FastaSuffix(r.pre, r.pre+r.n) + " " + c17Flat(r.def)
 	}
 	return r.desc
 }
